@@ -1407,95 +1407,3 @@ Proof.
 Qed.
 
 End DescBranch.
-
-(* ---------------------------------------------------------------------------------------- *)
-(* Statements (closed; the lead references them from Properties.v) *)
-Theorem C20_graph_find_ghost_sound : forall t lbl ws G ins ph S eqv heads current b,
-  cum_ok t G ins -> anc_wf t G -> tracker_ok t ph S eqv ins ->
-  find_ghost t lbl G heads current (cond_ph ws eqv ph) = Some b ->
-  forall a, anc t a b -> has_supermajority t ws S a = true.
-Proof.
-  intros t lbl ws G ins ph S eqv heads current b CO W TR H a A.
-  exact (find_ghost_sound_ancestors t lbl ws G ins ph S eqv CO W TR heads current b a H A).
-Qed.
-Print Assumptions C20_graph_find_ghost_sound.
-
-Theorem C20_graph_find_ghost_on_spec_ghost_chain : forall t lbl ws G ins ph S eqv heads current b,
-  cum_ok t G ins -> anc_wf t G -> tracker_ok t ph S eqv ins ->
-  (0 < total ws)%N -> tolerant ws S = true -> (forall x, In x S -> in_tree t (vblock x)) ->
-  find_ghost t lbl G heads current (cond_ph ws eqv ph) = Some b ->
-  exists g, ghost t ws S = Some g /\ anc t b g.
-Proof.
-  intros t lbl ws G ins ph S eqv heads current b CO W TR.
-  exact (find_ghost_below_spec_ghost t lbl ws G ins ph S eqv CO W TR heads current b).
-Qed.
-Print Assumptions C20_graph_find_ghost_on_spec_ghost_chain.
-
-Theorem C20_graph_find_ghost_none_iff : forall t lbl ws G ins ph S eqv heads,
-  cum_ok t G ins -> tracker_ok t ph S eqv ins -> (exists e0, eget 0%nat G = Some e0) ->
-  (find_ghost t lbl G heads None (cond_ph ws eqv ph) = None <-> ghost t ws S = None).
-Proof.
-  intros t lbl ws G ins ph S eqv heads CO TR.
-  exact (find_ghost_none_iff t lbl ws G ins ph S eqv CO TR heads).
-Qed.
-Print Assumptions C20_graph_find_ghost_none_iff.
-
-Theorem C20_graph_find_ghost_is_spec_ghost : forall t lbl ws G ins ph S eqv heads,
-  chain_inv t G -> cum_ok t G ins -> anc_wf t G -> tracker_ok t ph S eqv ins ->
-  (exists e0, eget 0%nat G = Some e0) ->
-  (forall p, In p ins -> exists e, eget (fst p) G = Some e) ->
-  desc_complete G -> desc_sound G ->
-  (0 < total ws)%N -> tolerant ws S = true -> (forall x, In x S -> in_tree t (vblock x)) ->
-  find_ghost t lbl G heads None (cond_ph ws eqv ph) = ghost t ws S.
-Proof. exact find_ghost_is_spec_ghost. Qed.
-Print Assumptions C20_graph_find_ghost_is_spec_ghost.
-
-(* Insert keeps "g_desc lists exactly the child vote-nodes" on all three paths *)
-Theorem C20_graph_reach_full_desc_exact : forall t lbl G heads eqv S ins,
-  reach_full t lbl G heads eqv S ins -> desc_exact G.
-Proof. exact reach_full_desc_exact. Qed.
-Print Assumptions C20_graph_reach_full_desc_exact.
-
-Theorem C20_graph_reach_full_find_ghost_is_spec_ghost : forall t lbl ws G heads eqv S ins ph,
-  reach_full t lbl G heads eqv S ins -> (ph < 2)%nat ->
-  (0 < total ws)%N -> tolerant ws (S ph) = true -> (forall x, In x (S ph) -> in_tree t (vblock x)) ->
-  find_ghost t lbl G heads None (cond_ph ws eqv ph) = ghost t ws (S ph).
-Proof. exact reach_full_find_ghost_is_spec_ghost. Qed.
-Print Assumptions C20_graph_reach_full_find_ghost_is_spec_ghost.
-
-Theorem C20_graph_reach_full_find_ghost_from_node : forall t lbl ws G heads eqv S ins ph c ec,
-  reach_full t lbl G heads eqv S ins -> (ph < 2)%nat ->
-  (0 < total ws)%N -> tolerant ws (S ph) = true -> (forall x, In x (S ph) -> in_tree t (vblock x)) ->
-  eget c G = Some ec ->
-  find_ghost t lbl G heads (Some c) (cond_ph ws eqv ph) =
-  if has_supermajority t ws (S ph) c then ghost t ws (S ph) else None.
-Proof. exact reach_full_find_ghost_from_node. Qed.
-Print Assumptions C20_graph_reach_full_find_ghost_from_node.
-
-(* the restart from the previous ghost c (any block that still has a supermajority) *)
-Theorem C20_graph_reach_full_find_ghost_restart : forall t lbl ws G heads eqv S ins ph c,
-  reach_full t lbl G heads eqv S ins -> (ph < 2)%nat ->
-  (0 < total ws)%N -> tolerant ws (S ph) = true -> (forall x, In x (S ph) -> in_tree t (vblock x)) ->
-  has_supermajority t ws (S ph) c = true ->
-  find_ghost t lbl G heads (Some c) (cond_ph ws eqv ph) = ghost t ws (S ph).
-Proof. exact reach_full_find_ghost_restart. Qed.
-Print Assumptions C20_graph_reach_full_find_ghost_restart.
-
-(* the memoised ghost fed back as [current] (prevoteGhost in importPrevote, precommitGhost in
-   PrecommitGHOST) stays the specification's ghost *)
-Theorem C20_graph_reach_full_ghost_memo_step : forall t lbl ws G heads eqv S ins ph prev V0,
-  reach_full t lbl G heads eqv S ins -> (ph < 2)%nat ->
-  (0 < total ws)%N -> tolerant ws (S ph) = true -> (forall x, In x (S ph) -> in_tree t (vblock x)) ->
-  subset V0 (S ph) -> prev = ghost t ws V0 ->
-  (if (th ws <=? cur_weight ws (S ph))%N then find_ghost t lbl G heads prev (cond_ph ws eqv ph) else prev)
-  = ghost t ws (S ph).
-Proof. exact reach_full_ghost_memo_step. Qed.
-Print Assumptions C20_graph_reach_full_ghost_memo_step.
-
-Theorem C20_graph_precommit_ghost_is_spec_ghost : forall t lbl ws s S ins V0,
-  reach_full t lbl (r_G s) (r_heads s) (r_eqv s) S ins -> r_pc s = S 1%nat ->
-  (0 < total ws)%N -> tolerant ws (r_pc s) = true -> (forall x, In x (r_pc s) -> in_tree t (vblock x)) ->
-  subset V0 (r_pc s) -> r_pcg s = ghost t ws V0 ->
-  r_pcg (precommit_ghost t lbl ws s) = ghost t ws (r_pc s).
-Proof. exact precommit_ghost_is_spec_ghost. Qed.
-Print Assumptions C20_graph_precommit_ghost_is_spec_ghost.
